@@ -212,6 +212,26 @@ def gen_text(rng):
     return "\n".join(lines) + "\n"
 
 
+def edit_index(las, rng):
+    """a file that was READ and whose index is then edited in memory while its last sample still equals STOP: what the next write()
+    states in STRT / STOP / STEP depends on what the object remembers of the index it was read with -- the copy has to remember it too"""
+    import numpy as np
+    try:
+        d = las.curves[0].data
+        if d.dtype.kind != "f" or len(d) < 2:
+            return
+        k = rng.randrange(4)
+        if k == 0:
+            d[0] = d[0] - 0.5                       # in place
+        elif k == 1:
+            for c in las.curves:                    # the top row cut off
+                c.data = c.data[1:]
+        elif k == 2:
+            las.curves[0].data = np.concatenate([[d[0] + 0.25], d[1:]])
+    except Exception:
+        return
+
+
 def corpus():
     return sorted(glob.glob(os.path.join(fw.REPO, "tests", "examples", "**", "*.las"), recursive=True))
 
@@ -470,6 +490,7 @@ def run(run):
             las = lasio.read(text, mnemonic_case=mcase)
         except Exception:
             continue
+        edit_index(las, rng)
         process_las(run, tie, las, "read:%s:%d" % (mcase, n), rng)
     files = corpus()
     if run.tier == "quick":
@@ -480,6 +501,8 @@ def run(run):
         except Exception:
             continue
         big = sum(getattr(c.data, "size", 0) for c in las.curves) > 20000
+        if rng.random() < 0.5:
+            edit_index(las, rng)
         process_las(run, tie, las, "corpus:" + os.path.relpath(f, fw.REPO), rng, deep=not big)
     tie.flush()
 
